@@ -148,9 +148,18 @@ def run(ctx):
                 ctx.violation('connection-left-open', 'connection %d (%s) was not closed by the tool before it exited' % (i, phases[i]), desc)
         # ---- correspondence with the AuditSM skeleton ----
         hk_env = []
+        from ssh_audit.hostkeytest import HostKeyTest  # noqa
+        groups = ['diffie-hellman-group1-sha1', 'diffie-hellman-group14-sha1', 'diffie-hellman-group14-sha256', 'curve25519-sha256', 'curve25519-sha256@libssh.org',
+                  'diffie-hellman-group16-sha512', 'diffie-hellman-group18-sha512', 'diffie-hellman-group-exchange-sha1', 'diffie-hellman-group-exchange-sha256',
+                  'ecdh-sha2-nistp256', 'ecdh-sha2-nistp384', 'ecdh-sha2-nistp521']
+        hk_kex = next((k for k in c['kex'] if k in groups), None)
+        # when the host-key probe itself runs over a group exchange, the server's GEX behaviour decides whether a reply arrives
+        gex_ok = True
+        if hk_kex is not None and hk_kex.startswith('diffie-hellman-group-exchange'):
+            gex_ok = isinstance(gex_fn(c['gex_style'])(1024, 2048, 8192), int)
         for t in c['key']:
             b = c['hk_beh'].get(t)
-            hk_env.append((t, 'HkOk' if b == 'ok' else 'HkProbeFailed'))
+            hk_env.append((t, 'HkOk' if (b == 'ok' and gex_ok) else 'HkProbeFailed'))
         # observed sequence of probes
         obs_hk = []
         for i in range(r['conns']):
